@@ -9,6 +9,17 @@ open Real
 open Rateslib.Dual
 
 theorem powf_real (x p : ℝ) : Transc.powf x p = x ^ p := rfl
+
+/-- over ℝ the guarded power of the repaired `pow` is the plain power as soon as it is multiplied by its
+coefficient (`0 · x^e = 0`) -/
+theorem coeffPow_real (c x e : ℝ) : c * Dual.coeffPow c x e = c * x ^ e := by
+  unfold Dual.coeffPow
+  by_cases h : c = 0
+  · subst h; simp
+  · have : Transc.eqb c (0 : ℝ) = false := by
+      show decide (c = 0) = false
+      simp [h]
+    rw [this]; rfl
 theorem exp_real (x : ℝ) : Transc.exp x = Real.exp x := rfl
 theorem ln_real (x : ℝ) : Transc.ln x = Real.log x := rfl
 theorem ncdf_real (x : ℝ) : Transc.ncdf x = Phi x := rfl
@@ -106,12 +117,13 @@ theorem evalD_refines (e : Expr) (env : Nat → Dual ℝ) (hwf : ∀ i, (env i).
     have w1 : (⟨(evalD a env).real, (evalD a env).vars, vscaleR (evalD a env).dual p⟩ : Dual ℝ).WF :=
       wf_scaleR _ _ _ wa
     have h1 := den_scaleR ⟨(evalD a env).real, (evalD a env).vars, vscaleR (evalD a env).dual p⟩
-      (Transc.powf (evalD a env).real (p - 1)) w1 (Transc.powf (evalD a env).real p) v
+      (Dual.coeffPow p (evalD a env).real (p - 1)) w1 (Transc.powf (evalD a env).real p) v
     have h2 := den_scaleR (evalD a env) p wa (evalD a env).real v
     simp only [powf_real] at h1
     refine ⟨wf_scaleR ⟨_, _, vscaleR (evalD a env).dual p⟩ _ _ w1, Prod.ext ?_ ?_⟩
     · simp only [evalD, Dual.pow, evalJ, ← ja, jetOf_fst, powf_real]
     · simp only [evalD, Dual.pow, evalJ, ← ja, jetOf_fst, jetOf_snd, h1, h2, powf_real]
+      rw [mul_assoc, coeffPow_real, ← mul_assoc]
   | exp a iha =>
     obtain ⟨wa, ja⟩ := iha
     refine ⟨wf_scaleL _ _ _ wa, Prod.ext ?_ ?_⟩
